@@ -92,7 +92,13 @@ pub fn install_panic_hook() {
     let default = std::panic::take_hook();
     std::panic::set_hook(Box::new(move |info| {
         let msg = format!("{info}");
-        LAST_PANIC.with(|p| *p.borrow_mut() = Some(msg));
+        // keep the first panic of a capture (a scope re-raises a task's panic as a second one)
+        LAST_PANIC.with(|p| {
+            let mut p = p.borrow_mut();
+            if p.is_none() {
+                *p = Some(msg);
+            }
+        });
         if !QUIET.with(|q| q.get()) && !QUIET_ALL.load(SeqCst) {
             default(info);
         }
